@@ -78,7 +78,7 @@ def canonical(gen: Any) -> Any:
 
 
 def one_run(holder_factory: Any, evs: list[OTelEvent], flags: list[int]) -> Any:
-    """flags = [ingest, unique]"""
+    """flags = [ingest, unique] or [ingest, unique, consume-the-output]"""
     V.forget_temp_table()
     saved = (ing.fetch_data_source, ing.fetch_data_holder, o2p.fetch_data_holder, o2p.tqdm, sdh.tqdm, seq.tqdm)
     ing.fetch_data_source = lambda config: [e.model_copy() for e in evs]  # type: ignore[assignment]
@@ -90,6 +90,8 @@ def one_run(holder_factory: Any, evs: list[OTelEvent], flags: list[int]) -> Any:
                                                   ingest_data=IngestTypes.model_construct(data_source="json", data_holder="sql"),
                                                   sequencer=SequenceModelConfig())
         gen = o2p.otel_to_pv(config, ingest_data=bool(flags[0]), find_unique_graphs=bool(flags[1]), save_events=False)
+        if len(flags) > 2 and not flags[2]:
+            return "NOT-CONSUMED"      # what `otel2pv` without --save-events does: the lazy stream is never read
         return canonical(gen)
     except Exception as e:  # noqa
         if os.environ.get("VERIF_DEBUG"):
@@ -109,6 +111,8 @@ def history_model(c: dict[str, Any], evs: list[OTelEvent]) -> Optional[str]:
         return V.model_holder(store, c["batch"], c["buf"])
     for k, flags in enumerate(c["history"]):
         got = one_run(factory, evs, flags)
+        if got == "NOT-CONSUMED":
+            continue
         if isinstance(got, str):
             return f"run {k + 1} {flags}: {got}"
         fresh = M.Store()
@@ -136,6 +140,8 @@ def history_real(c: dict[str, Any], evs: list[OTelEvent]) -> Optional[str]:
                 h.session.close()
                 h.engine.dispose()
             made.clear()
+            if got == "NOT-CONSUMED":
+                continue
             if isinstance(got, str):
                 return f"run {k + 1} {flags}: {got}"
             want = one_run(mk(f"sqlite:///{tmp}/fresh{k}.sqlite"), evs, [1, flags[1]])
